@@ -315,7 +315,7 @@ def c17_session(klepto, job):
 
 def gen_case_c04(rng):
     from kv import archmon
-    b = dict(rng.choice(PERSISTENT))
+    b = dict(rng.choice(PERSISTENT + [x for x in PERSISTENT if not x.get('serialized', True)]))   # import-based readers x2
     pool = [k for k in archmon.key_pool(b, rng) if k not in ('a_b', '1')]
     if b['kind'] == 'dir':
         from kv.cachemon import dir_fname
@@ -326,6 +326,9 @@ def gen_case_c04(rng):
                 seen.add(fn); uniq.append(k)
         pool = uniq
     keys = rng.sample(pool, min(len(pool), rng.choice([2, 3, 5])))
+    longk = [k for k in pool if isinstance(k, str) and len(k) > 200]
+    if len(longk) >= 2 and rng.random() < 0.3:
+        keys = [k for k in keys if k not in longk] + longk[:2]     # two long keys that differ only at the very end
     u = archmon.Uniq()
     ops = []
     rapid = rng.random() < 0.4       # same-size rewrites in quick succession
